@@ -23,12 +23,8 @@ func ruleScale(c *Ctx) {
 		}
 		n := NewNormer(c.P)
 		n.BindParams(fn, "bc", "W", "H", "fill")
-		bcall := invokeOn(fn, fn.Params[0], "Bounds")
-		if bcall == nil {
-			c.Undecided(R4, name+"/bounds", fn.Pos(), "no bc.Bounds() call")
-			continue
-		}
-		n.Bind[bcall] = "B"
+		// the source bounds, wherever they are taken (directly or in a helper)
+		n.AtomAlias["invoke:Bounds(bc)"] = "B"
 		m := map[string]string{
 			"orgW": "B.Max.X - B.Min.X",
 			"orgH": "B.Max.Y - B.Min.Y",
@@ -174,45 +170,54 @@ func ruleScale(c *Ctx) {
 		n.BindParams(fn, "bc", "W", "H")
 		swf := c.P.Func("barcode.ScaleWithFill")
 		calls := callsTo(fn, swf)
-		if len(calls) != 1 {
-			c.Check(R3, "barcode.Scale/delegates", fn.Pos(), false, "one call to ScaleWithFill", fmt.Sprint(len(calls)))
-		} else {
-			call := calls[0]
+		if len(calls) == 0 {
+			c.Check(R3, "barcode.Scale/delegates", fn.Pos(), false, "delegates to ScaleWithFill", "no call")
+		}
+		// alternatives of the fill argument with their conditions (one call with a selected value, or
+		// one call per branch)
+		type alt struct {
+			val  string
+			cond *Cond
+		}
+		var alts []alt
+		for _, call := range calls {
 			good := true
 			for i, w := range []string{"bc", "W", "H"} {
 				if !pEqual(n.Norm(call.Common().Args[i]), MustRef(w)) {
 					good = false
 				}
 			}
-			c.Check(R3, "barcode.Scale/args", call.Pos(), good, "(bc, W, H, fill)", call.String())
-			phi, ok := call.Common().Args[3].(*ssa.Phi)
-			if !ok || len(phi.Edges) != 2 {
-				c.Undecided(R3, "barcode.Scale/fill", call.Pos(), "fill is not a two-way choice")
-			} else {
-				bgSeen, whiteSeen := false, false
-				for i, e := range phi.Edges {
-					pred := phi.Block().Preds[i]
-					cond := cAnd(n.ReachCond(fn, nil, pred), n.EdgeCond(pred, phi.Block()))
-					s := n.Norm(e).asAtom()
-					switch {
-					case s == "invoke:ColorScheme(assert(bc,barcode.BarcodeColor)#0).Background":
-						bgSeen = true
-						c.expectCondC(R3, "barcode.Scale/fill-background-iff", phi.Pos(), cond, &Cond{Kind: CBool, Name: "assert(bc,barcode.BarcodeColor)#1"})
-					case s == "global:image/color.White" || s == "global:color.White":
-						whiteSeen = true
-					default:
-						c.Check(R3, fmt.Sprintf("barcode.Scale/fill-edge%d", i), phi.Pos(), false, "ColorScheme().Background or color.White", s)
-					}
-				}
-				c.Check(R3, "barcode.Scale/fill-choices", phi.Pos(), bgSeen && whiteSeen, "both the scheme background and the white default", fmt.Sprintf("background=%v white=%v", bgSeen, whiteSeen))
+			c.Check(R3, "barcode.Scale/args@"+c.P.Pos(call.Pos()), call.Pos(), good, "(bc, W, H, fill)", call.String())
+			reach := n.ReachCond(fn, nil, call.Block())
+			for _, cs := range n.valueCases(fn, nil, call.Common().Args[3], 0) {
+				alts = append(alts, alt{cs.val.asAtom(), cAnd(reach, cs.cond)})
 			}
 			// results passed through
+			okRet := false
 			for _, ret := range returnsOf(fn) {
 				ex0, ok0 := ret.Results[0].(*ssa.Extract)
 				ex1, ok1 := ret.Results[1].(*ssa.Extract)
-				c.Check(R3, "barcode.Scale/returns", ret.Pos(), ok0 && ok1 && ex0.Tuple == ssa.Value(call) && ex1.Tuple == ssa.Value(call) && ex0.Index == 0 && ex1.Index == 1, "returns ScaleWithFill's results", ret.String())
+				if ok0 && ok1 && ex0.Tuple == ssa.Value(call) && ex1.Tuple == ssa.Value(call) && ex0.Index == 0 && ex1.Index == 1 {
+					okRet = true
+				}
+			}
+			c.Check(R3, "barcode.Scale/returns@"+c.P.Pos(call.Pos()), call.Pos(), okRet, "returns ScaleWithFill's results", fmt.Sprint(okRet))
+		}
+		hasScheme := &Cond{Kind: CBool, Name: "assert(bc,barcode.BarcodeColor)#1"}
+		bgSeen, whiteSeen := false, false
+		for i, a := range alts {
+			switch a.val {
+			case "invoke:ColorScheme(assert(bc,barcode.BarcodeColor)#0).Background":
+				bgSeen = true
+				c.expectCondC(R3, "barcode.Scale/fill-background-iff", fn.Pos(), a.cond, hasScheme)
+			case "global:image/color.White", "global:color.White":
+				whiteSeen = true
+				c.expectCondC(R3, "barcode.Scale/fill-white-iff", fn.Pos(), a.cond, cNot(hasScheme))
+			default:
+				c.Check(R3, fmt.Sprintf("barcode.Scale/fill-alt%d", i), fn.Pos(), false, "ColorScheme().Background or color.White", a.val)
 			}
 		}
+		c.Check(R3, "barcode.Scale/fill-choices", fn.Pos(), bgSeen && whiteSeen, "both the scheme background and the white default", fmt.Sprintf("background=%v white=%v", bgSeen, whiteSeen))
 	}
 
 	// X1/X2 wrapper type
